@@ -286,6 +286,7 @@ func (c *XAConn) cleanXABranchContext() {
 	c.branchRegisterTime = time.Now().Add(h)
 	c.prepareTime = time.Now().Add(h)
 	c.xaActive = false
+	c.autoCommit = true
 	if !c.isConnKept {
 		c.xaBranchXid = nil
 	}
@@ -342,6 +343,9 @@ func (c *XAConn) Commit(ctx context.Context) error {
 	if err := c.xaResource.XAPrepare(ctx, c.xaBranchXid.String()); err != nil {
 		return c.commitErrorHandle(ctx, err)
 	}
+	// the local work of the branch is over: the connection is free for the next statement
+	c.xaActive = false
+	c.autoCommit = true
 	return nil
 }
 
